@@ -13,8 +13,8 @@ Decided (necessary conditions):
   C10.assembly   every copy of the TIMEX/seconds assembly in BaseDurationParser has the reference normal form and the
                  copies agree (TIMEX from unit_map[source_unit], seconds from unit_value_map[source_unit], same num)
   C10.span-seconds  field-wise PT..H..M..S durations of two clock times given to the second are the canonical split of
-                 end - start (tabulated over second borrow x minute difference x hour wrap); spans with a zero minute
-                 component losing their seconds are an observation (upstream truncation)
+                 end - start (tabulated over second borrow x minute difference x hour wrap), seconds of a span with a
+                 zero minute component included
   C10.year-span  hand-assembled (start,end,P{n}Y) year ranges name the stored dates and start + n years = end, for two-
                  and four-digit years (self-consistency; the century pivot itself is not decided)
   C10.timespan   luis_time_span and generate_date_period_timex_unit_count, interpreted on sample ranges, give the
@@ -1548,24 +1548,16 @@ def run_base(chk, idx, consts):
             chk.exempt('C10.span-seconds', mod.path, cons, 'the function does not read the seconds of both time points', 'no seconds field', fn.lineno)
             continue
         sec_sites += 1
-        wrong, dropped, n = [], [], 0
+        wrong, n = [], 0
         for b_, e_ in span_seconds_probe():
             if b_.time() == e_.time():
                 continue
             n += 1
             why = span_seconds_cell(span_eval_function(idx, cls, fn, b_, e_), b_, e_)
             if why == 'dropped':
-                dropped.append((b_, e_))
+                wrong.append('%s-%s: seconds dropped' % (b_.strftime('%H:%M:%S'), e_.strftime('%H:%M:%S')))
             elif why:
                 wrong.append(why)
-        # the seconds of a span with a zero minute component are not written (the seconds suffix is nested under the minutes one: 14:15:10 to
-        # 16:15:30 -> PT2H): an upstream truncation of the same kind on every platform's Chinese parser, reported as an observation;
-        # seconds dropped while the minute component is non-zero are a verdict
-        bad_drop = [(b_, e_) for b_, e_ in dropped if (int((e_ - b_).total_seconds()) % 3600) // 60 != 0]
-        wrong += ['%s-%s: seconds dropped' % (b_.strftime('%H:%M:%S'), e_.strftime('%H:%M:%S')) for b_, e_ in bad_drop]
-        if len(dropped) > len(bad_drop):
-            chk.observe('%s: %d of %d probe spans with a zero minute component lose their seconds (e.g. %s to %s): known truncation, not a verdict'
-                        % (cons, len(dropped) - len(bad_drop), n, dropped[0][0].strftime('%H:%M:%S'), dropped[0][1].strftime('%H:%M:%S')))
         chk.judge(not wrong, 'C10.span-seconds', mod.path, cons, '%d probe spans with seconds agree' % n if not wrong else
                   '%d of %d differ; first: %s' % (len(wrong), n, '; '.join(wrong[:3])),
                   '%s: the duration of a range of two clock times given to the second is not the canonical split of end - start: %s (%d of %d '
